@@ -49,7 +49,7 @@ const (
 // probeMarker is published instead of a case index while the length fields of a seed are probed.
 const probeMarker = 0x7ffffffe
 
-const maxDeathsPerUnit = 8
+const maxDeathsPerUnit = 6
 
 func cpuTime() time.Duration {
 	var ru syscall.Rusage
@@ -601,7 +601,10 @@ func (e *executor) runCaseKey(t *dtarget, in []byte, key string, desc func() str
 		}
 		if bound := uint64(allocPerByte*len(in) + allocSlack); alloc > bound {
 			v = reflect.Value{}
-			// the allocation site is determined once per (entry class, site class)
+			// The allocation site (innermost repository function of the largest allocation in the
+			// memory profile) is reported in the detail only: the profile lags behind, and an
+			// allocation near the address-space limit may or may not kill the process, so the
+			// signature of an allocation failure is (entry class, attacked length field) for both.
 			ck := key
 			if i := strings.LastIndex(ck, "|"); i > 0 {
 				ck = ck[:strings.LastIndex(ck[:i], "|")]
@@ -614,7 +617,7 @@ func (e *executor) runCaseKey(t *dtarget, in []byte, key string, desc func() str
 				}
 			}
 			r.Outcomes["alloc-over-bound"]++
-			e.violate("decode/"+t.class()+"/alloc/"+top+shapeSuffix(e.shape), fmt.Sprintf("allocated %d bytes for an input of %d bytes (bound %d); input %x (%s)", alloc, len(in), bound, clipBytes(in), desc()), rp())
+			e.violate("decode/"+t.class()+"/alloc"+shapeSuffix(e.shape), fmt.Sprintf("allocated %d bytes for an input of %d bytes (bound %d), largest allocation in %s; input %x (%s)", alloc, len(in), bound, top, clipBytes(in), desc()), rp())
 			return true
 		}
 		return false
@@ -1318,7 +1321,7 @@ func superviseShard(prop string, s evid.ShardInfo, w *evid.Run, p *plan, assign 
 	// start (or hundreds of megabytes of page faults). Each priority class has a budget of such
 	// inputs per shard; when it is used up the remaining units of the class are reported as not
 	// run. On a tree without such inputs nothing is cut.
-	budgets := []int{64, 96, 32, 32, 32, 16}
+	budgets := []int{24, 48, 12, 12, 12, 8}
 	if p.thorough {
 		budgets = []int{512, 512, 256, 256, 256, 128}
 	}
@@ -1475,10 +1478,11 @@ func superviseShard(prop string, s evid.ShardInfo, w *evid.Run, p *plan, assign 
 		t := p.targets[u.Target]
 		in, desc := reconstructCase(p, u, m)
 		if prop == "C02" {
+			sig := "decode/" + t.class() + "/" + kind + "/" + top
 			if kind == "alloc" {
-				top += shapeSuffix(shape)
+				sig = "decode/" + t.class() + "/alloc" + shapeSuffix(shape)
 			}
-			w.Violate("decode/"+t.class()+"/"+kind+"/"+top, fmt.Sprintf("the decoding process died (%v) on input %x (%s)\n%s", werr, clipBytes(in), desc, firstLines(stderr, 14)),
+			w.Violate(sig, fmt.Sprintf("the decoding process died (%v) on input %x (%s)\n%s", werr, clipBytes(in), desc, firstLines(stderr, 14)),
 				caseReplay{Target: t.Name, Kind: t.Kind, Hex: hex.EncodeToString(clipReplay(in)), Desc: desc})
 			outcomes["process-death:"+kind]++
 		} else if key == "@reencode" {
